@@ -255,7 +255,17 @@ func scenario(c *run.Ctx, idx int) {
 					judged = append(judged, bx.SubTxList...)
 				}
 			}
-			for _, jt := range judged {
+			for ji, jt := range judged {
+				if ji > 0 {
+					// the box's signers signed the hashes of its sub transactions: a sub transaction's hash has to be the hash of
+					// its fields (of the transaction its wire form decodes to), or the signature does not bind the content
+					c.Stat("box_subtx_hashes_checked_against_fields", 1)
+					if jt.Hash() != fx.WireTx(jt).Hash() {
+						enc, _ := rlp.EncodeToBytes(x.tx)
+						c.Violation("C06/effective-box-whose-signature-does-not-bind-its-content", fmt.Sprintf("[%s] sub transaction %d of a packaged box answers Hash() = %s, its fields hash to %s: the box signature covers the former", x.kind, ji-1, jt.Hash().Hex(), fx.WireTx(jt).Hash().Hex()),
+							witness{Scn: cl.Witness(t, sc, x.kind), Tx: hex.EncodeToString(enc)})
+					}
+				}
 				if class, msg := judgeTx(src, jt); class != "" {
 					enc, _ := rlp.EncodeToBytes(jt)
 					c.Violation("C06/"+class, fmt.Sprintf("[%s] %s", x.kind, msg), witness{Scn: cl.Witness(t, sc, x.kind), Tx: hex.EncodeToString(enc)})
@@ -602,6 +612,27 @@ func scenario(c *run.Ctx, idx int) {
 				continue
 			}
 			boxed := r.Chance(1, 4)
+			if boxed && expect && r.Chance(1, 3) {
+				// a signed box whose sub transaction is swapped afterwards for another validly signed transaction; the JSON
+				// text of the replacement announces the hash of the original
+				box := B.Box(U[11], types.Transactions{tx}, tx.Expiration())
+				other := B.Transfer(U[10], U[9].Addr, big.NewInt(777), tx.Expiration())
+				var bx struct {
+					SubTxList []json.RawMessage `json:"subTxList"`
+				}
+				var m map[string]json.RawMessage
+				repl, _ := json.Marshal(other)
+				if json.Unmarshal(box.Data(), &bx) == nil && len(bx.SubTxList) == 1 && json.Unmarshal(repl, &m) == nil {
+					m["hash"] = json.RawMessage(`"` + tx.Hash().Hex() + `"`)
+					bx.SubTxList[0], _ = json.Marshal(m)
+					f := fx.Fields(box)
+					f.Data, _ = json.Marshal(bx)
+					if forged, err := f.Tx(); err == nil {
+						cs = append(cs, cand{tx: forged, kind: "boxed-subtx-swapped-under-the-box-signature:hash-member-forged", expect: false, boxed: true})
+						continue
+					}
+				}
+			}
 			if boxed {
 				if !a.multisig() && r.Chance(1, 2) {
 					// the box comes from the sub transaction's own sender: the box signature says nothing about the sub
